@@ -16,14 +16,14 @@ package maps
 //@ func (*MutexMap).Lock(l, name) ()
 //@   modifies contents(l.locks)
 //@   ghostset mmHeld := mmHeld + 1
-//@   before_call inc#1 [waiter_counted_under_table_lock] held(l.mutex)
-//@   before_call Lock#2 [name_lock_awaited_outside_table_lock] !held(l.mutex)
+//@   before_call wrappedMutex.inc#1 [waiter_counted_under_table_lock] held(l.mutex)
+//@   before_call wrappedMutex.Lock#1 [name_lock_awaited_outside_table_lock] !held(l.mutex)
 
 //@ func (*MutexMap).Unlock(l, name) (err)
 //@   modifies contents(l.locks)
 //@   ghostset mmHeld := mmHeld - 1
-//@   before_call count#1 [waiters_read_under_table_lock] held(l.mutex)
-//@   before_call Unlock#2 [name_lock_released_under_table_lock] held(l.mutex)
+//@   before_call wrappedMutex.count#1 [waiters_read_under_table_lock] held(l.mutex)
+//@   before_call wrappedMutex.Unlock#1 [name_lock_released_under_table_lock] held(l.mutex)
 
 // One-line wrappers over sync/atomic and sync.Mutex: trusted.
 //@ func (*wrappedMutex).inc(l) ()
